@@ -1075,6 +1075,25 @@ def wire_cases(ctx):
                     yield "cross-layout", bytes(im.ser.serialize(m)).hex()
                 except Exception as e:  # noqa
                     yield "genfail:" + type(e).__name__, None
+    # non-finite family: payloads of subfield-serialized variables made of F32s with one +-inf (or NaN) somewhere inside: the pretty
+    # value then holds a non-finite float NESTED in a tuple/dict/dataclass, which no Python literal can spell
+    import struct as _st
+    for (mn, bn, vn), s_ in sorted(se.SUBFIELD_SERIALIZERS.items(), key=lambda kv: kv[0]):
+        tmpl = im.TD.get_template_by_name(mn)
+        if tmpl is None:
+            continue
+        for n in [x for x in g.ser_sizes(s_) if x and x % 4 == 0 and x <= 256][:6]:
+            k = n // 4
+            for j in sorted({0, 1, k // 2, k - 2, k - 1} & set(range(k))):
+                for bad in (float("inf"), float("-inf"), float("nan")):
+                    try:
+                        m = im.decode(g.datagram(tmpl, flags=0, counts=[1] * len(tmpl.blocks)))
+                        fl = [1.0] * k
+                        fl[j] = bad
+                        m[bn][0][vn] = _st.pack("<%df" % k, *fl)
+                        yield "nonfinite-subfield", bytes(im.ser.serialize(m)).hex()
+                    except Exception as e:  # noqa
+                        yield "genfail:" + type(e).__name__, None
     # timestamp family: every 64-bit variable that has a pretty form, over plausible microsecond timestamps (the pretty form
     # goes through float seconds and does not always pack back to the same integer: the text must still round-trip)
     for (mn, bn, vn), s_ in sorted(se.SUBFIELD_SERIALIZERS.items(), key=lambda kv: kv[0]):
